@@ -122,8 +122,9 @@ class LG:
             "decoy_after", "decoy_prevline", "decoy_nextline", "oneline_def_lambda", "in_list", "in_dict", "multiline_body", "semicolon", "comment_lines", "kwarg_after",
             "trailing_comma", "chain_multibody", "nested_call_arg", "cond_expr", "backslash", "comprehension", "where_single", "where_chain", "lambda_own_line_chain",
             "decoy_default_arg", "string_noise_line", "def_by_name", "def_by_name_docstring", "lambda_var", "three_chain_args",
-            "def_nested_by_name", "kwarg_lambda", "factory_lambda", "kwarg_const_after", "user_wrapper_const", "two_param_elsewhere", "after_multiline_string", "cond_lambda_arg", "cond_lambda_arg", "cond_lambda_two_calls", "cond_lambda_two_calls", "list_lambda_arg", "or_lambda_arg", "dict_lambda_arg", "wrapped_lambda_arg",
+            "def_nested_by_name", "kwarg_lambda", "factory_lambda", "kwarg_const_after", "user_wrapper_const", "two_param_elsewhere", "after_multiline_string", "after_multiline_string", "cond_lambda_arg", "cond_lambda_arg", "cond_lambda_two_calls", "cond_lambda_two_calls", "list_lambda_arg", "or_lambda_arg", "dict_lambda_arg", "wrapped_lambda_arg",
             "outer_bracket_continuation", "outer_bracket_continuation", "posonly_single", "first_arg_wrapper_const", "first_arg_wrapper_const", "backslash_string_decoy", "paren_lambda_names", "after_multiline_lambda_close", "unrelated_lambda_not_arg", "unrelated_lambda_not_arg",
+            "hard_lambda_between", "hard_lambda_between",
         ])
         p = self.pname()
         B = lambda **kw: self.body(p, **kw)  # noqa
@@ -269,6 +270,13 @@ class LG:
             return t, True, True, f"helper(lambda a, b: a + b, [1, 2]); r = ds.Select(lambda {p}: {b1})", f
         if t == "after_multiline_string":
             b1, f = B()
+            k = r.random()
+            if k < 0.3:
+                # the lines of the string start in the first column (as a statement would), its text reads like a call whose own
+                # quote swallows the real one
+                return t, False, True, f'note = """usage:\nSelect(lambda {p}: 1 if {p}.kind == \'b-jet """; r = ds.Select(lambda {p}: {b1})  # \' else 0)', f
+            if k < 0.5:
+                return t, False, True, f'r = ds.Where(lambda q: q.title != """\nold = ds.Select(lambda {p}: {p}.fake) """).Select(lambda {p}: {b1})  # """', f
             return t, False, True, f'r = ds.Where(lambda q: q.title != """\n old: Select(lambda {p}: {p}.fake) """).Select(lambda {p}: {b1})  # """', f
         if t == "outer_bracket_continuation":
             # the body runs over several lines WITHOUT brackets of its own: it leans on a bracket opened on an earlier line
@@ -325,6 +333,15 @@ class LG:
             b1, f = B()
             return t, True, True, r.choice([f"scale = [lambda x_: x_ * 2]; r = ds.Select(lambda {p}: {b1})", f"r = {{'pt': ds.Select(lambda {p}: {b1}), 'scale': lambda x_: x_ * 2}}['pt']",
                                             f"r = ds.Select(lambda {p}: {b1}); scale = lambda x_: x_ * 2", f"r = (ds.Select(lambda {p}: {b1}), [lambda x_: [x_, 8][0]])[0]"]), f
+        if t == "hard_lambda_between":
+            # two calls of one operator on the line, their lambdas taking the same name, and BETWEEN them a lambda that is hard to
+            # cut out of the line (an inner lambda's parameter list, brackets and commas in strings, defaults holding tuples)
+            (b1, f), (b2, _) = B(), B()
+            mid = r.choice(["lambda x_: lambda a_, b_: a_ + b_", "lambda x_: lambda a_, b_: a_ + b_", "lambda x_, k_=(1, 2): lambda *a_, **b_: (x_, a_)", "lambda x_: x_ == '),('",
+                            "lambda x_: [lambda a_, b_=[1, 2]: a_][0]", "lambda: lambda a_, b_: 0", f"lambda {p}: lambda {p}, b_: {p}"])
+            return t, False, True, r.choice([f"r = first_of(ds.Select(lambda {p}: {b1}), {mid}).Select(lambda {p}: {b2})",
+                                             f"r = first_of(ds.Select(lambda {p}: {b1}), {mid}, ds.Select(lambda {p}: {b2}))",
+                                             f"r = first_of(ds, {mid}).Select(lambda {p}: {b1}).Select(lambda {p}: {b2})"]), f
         if t == "kwarg_lambda":
             b, f = B()
             return t, False, False, f"r = ds.Select(f=lambda {p}: {b})", f
@@ -385,6 +402,7 @@ FLAG = [True, True]
 LO, HI = 10, 20
 def helper(f, *a): return True
 def keep(a, b): return b
+def first_of(s, *a): return s
 def then(s, f): return s.Select(f)
 def with_flag(f, d): return d.Select(f)
 def deco(f): return f
